@@ -267,7 +267,7 @@ SPEC = harness.Spec(
         "explicit type application f[...] is only generated when no int/float/dependent constant is abstract (negative and int literals are not accepted as type arguments, guppylang issue 1030)",
     ],
     shards={"quick": 16, "thorough": 16},
-    budget_s={"quick": 150, "thorough": 1500},
+    budget_s={"quick": 180, "thorough": 1500},
     params={"quick": {"n_law": 1500, "n_prog": 9, "n_validate_only": 1},
             "thorough": {"n_law": 40000, "n_prog": 220, "n_validate_only": 12}},
     min_nontrivial=400,
